@@ -257,7 +257,7 @@ reg("C01", gen=gen_zone.gen_c01)
 reg("C02", gen=gen_zone.gen_c02)
 reg("C03", gen=gen_zone.gen_c03)
 reg("C06", gen=gen_zone.gen_c06, post=gen_zone.post_c06)
-reg("C11", gen=gen_zone.gen_c11)
+reg("C11", gen=gen_zone.gen_c11, post=gen_zone.post_c11)
 reg("C10", gen=gen_zone.gen_c10, ub_is_violation=True)
 reg("C12", gen=gen_zone.gen_c12, ub_is_violation=True, model_err_is_violation=True, two_builds=True)
 reg("C14", gen=gen_zone.gen_c14, post=gen_zone.post_c14, sched_phase=True)
@@ -359,9 +359,22 @@ def run_sched(pid, spec, tier, seed, work, t0, no_prove):
             for (sd, n, it) in runs:
                 r = subprocess.run(["timeout", "600", th, "stress", str(sd), str(n), str(it)], env=e, stdout=subprocess.PIPE, stderr=subprocess.PIPE, text=True)
                 tsan_note["stress_%d_%d_%d" % (sd, n, it)] = "rc=%d" % r.returncode
-                if "ThreadSanitizer" in r.stderr or r.returncode != 0:
+                if "ThreadSanitizer" in r.stderr or "VALUE-MISMATCH" in r.stderr or r.returncode != 0:
                     tsan_bad = {"seed": sd, "threads": n, "iters": it, "rc": r.returncode, "report": r.stderr[-4000:]}
                     break
+            # the same stress on the uninstrumented build: far more lookups per second, for the VALUE checks
+            # (answers on a shared zone must equal the single-threaded reference whatever other threads do)
+            if tsan_bad is None:
+                ph, plog = C.build_harness(variant="plain", harness_src="thr_harness.cc")
+                if ph is None:
+                    tsan_note["plain_build"] = "failed: " + (plog or "")[-300:]
+                else:
+                    for (sd, n, it) in ([(seed * 10 + 7, 8, 4000)] if tier == "quick" else [(seed * 10 + 7, 8, 40000), (seed * 10 + 8, 32, 10000)]):
+                        r = subprocess.run(["timeout", "600", ph, "stress", str(sd), str(n), str(it)], env=e, stdout=subprocess.PIPE, stderr=subprocess.PIPE, text=True)
+                        tsan_note["plain_stress_%d_%d_%d" % (sd, n, it)] = "rc=%d" % r.returncode
+                        if "VALUE-MISMATCH" in r.stderr or r.returncode != 0:
+                            tsan_bad = {"seed": sd, "threads": n, "iters": it, "rc": r.returncode, "report": r.stderr[-4000:], "build": "plain"}
+                            break
     rc, violations = 0, 0
     reported = set()
     new_prop = []
